@@ -486,6 +486,32 @@ def opConvValidate (j : Json) : Option Json := do
   | .ok _ => some (ok (jObj [("accepted", Json.bool true)]))
   | .error e => some (err e)
 
+/-- the data of the source the model copies (`solverTables`): default arguments and default keyword dictionaries -/
+def opTables (_ : Json) : Option Json :=
+  let pairs := fun (l : List (String × String)) => jArr (l.map fun p => jArr [Json.str p.1, Json.str p.2])
+  some (ok (jObj [
+    ("defaults", jArr (solverTables.defaults.map fun e => jArr [Json.str e.1, pairs e.2])),
+    ("kwdicts", jArr (solverTables.kwDicts.map fun e => jArr [Json.str e.1, Json.str e.2.1, pairs e.2.2]))]))
+
+/-- class checks of an `internal_init`: `solver`, `f_none`, `isinst` = [[subject, class], …] (the true ones), `ci` = [[classes of C_i], …] -/
+def opInitCheck (j : Json) : Option Json := do
+  let cls ← fStr? j "solver"
+  let fNone ← fBool? j "f_none"
+  let isl ← fList? j "isinst"
+  let pairs ← isl.mapM fun e => do
+    let l ← (e.getArr?).toOption
+    let a ← (l[0]?).bind fun x => (x.getStr?).toOption
+    let b ← (l[1]?).bind fun x => (x.getStr?).toOption
+    some (a, b)
+  let cil ← fList? j "ci"
+  let cis ← cil.mapM fun e => do
+    let l ← (e.getArr?).toOption
+    l.toList.mapM fun x => (x.getStr?).toOption
+  let F : InitFacts := { fNone := fNone, isinst := fun s c => pairs.contains (s, c), ciInst := cis.map fun l => fun c => l.contains c }
+  match initResult (checksOf solverTables cls) F with
+  | .ok _ => some (ok (jObj [("accepted", Json.bool true)]))
+  | .error e => some (err e)
+
 def handler : Handler := fun op j =>
   let cplx := (fStr? j "dt") == some "c"
   match op with
@@ -500,6 +526,8 @@ def handler : Handler := fun op j =>
   | "circ" => if cplx then opCirc (α := Cx Float) j else opCirc (α := Float) j
   | "admm_matrix" => if cplx then opAdmmMatrix (α := Cx Float) j else opAdmmMatrix (α := Float) j
   | "genobj" => if cplx then opGenObj (α := Cx Float) j else opGenObj (α := Float) j
+  | "tables" => opTables j
+  | "init_check" => opInitCheck j
   | "atad_validate" => opAtadValidate j
   | "conv_validate" => opConvValidate j
   | "bisect" => opBisect j
